@@ -356,6 +356,53 @@ func linView(t *Term) (*Term, *big.Int) {
 	return t, big.NewInt(0)
 }
 
+// Allocation-order knowledge used to decide reference disequalities
+// syntactically: nextParent[N] is an earlier allocation counter with
+// N >= nextParent[N] (asserted unguarded when N is created); refBelow[r] = N
+// records the unguarded fact r < N for a reference variable r.
+var (
+	nextParent = map[*Term]*Term{}
+	refBelow   = map[*Term]*Term{}
+	nextRoot   *Term
+)
+
+func isNextVar(t *Term) bool {
+	if t == nil {
+		return false
+	}
+	_, ok := nextParent[t]
+	return ok || t == nextRoot
+}
+
+func nextAncestorOrSelf(anc, n *Term) bool {
+	for i := 0; n != nil && i < 10000; i++ {
+		if n == anc {
+			return true
+		}
+		n = nextParent[n]
+	}
+	return false
+}
+
+// refsDistinct: a and b (Int terms) denote provably different references.
+func refsDistinct(a, b *Term) bool {
+	ba, ka := linView(a)
+	bb, kb := linView(b)
+	chk := func(ba *Term, ka *big.Int, bb *Term, kb *big.Int) bool {
+		if !isNextVar(bb) || kb.Sign() < 0 {
+			return false
+		}
+		if ba == nil { // literal: globals/constants are <= 0, allocation counters are > 0
+			return ka.Sign() <= 0
+		}
+		if n, ok := refBelow[ba]; ok && ka.Sign() <= 0 {
+			return nextAncestorOrSelf(n, bb)
+		}
+		return false
+	}
+	return chk(ba, ka, bb, kb) || chk(bb, kb, ba, ka)
+}
+
 func Eq(a, b *Term) *Term {
 	if a == b {
 		return True
@@ -371,6 +418,9 @@ func Eq(a, b *Term) *Term {
 		bb, kb := linView(b)
 		if ba == bb {
 			return BoolT(ka.Cmp(kb) == 0)
+		}
+		if refsDistinct(a, b) {
+			return False
 		}
 	}
 	if a.S == BoolS {
@@ -395,26 +445,84 @@ func Eq(a, b *Term) *Term {
 
 // ---- Int arithmetic
 
+// Sums are kept in a canonical form: (+ base k) where k is a literal and base
+// is a single non-sum term or an n-ary sum of non-literal terms sorted by id,
+// so that syntactically different groupings of the same sum are one term.
+func addends(t *Term, out []*Term, k *big.Int) []*Term {
+	switch {
+	case t.Op == "int":
+		k.Add(k, t.V)
+	case t.Op == "+":
+		for _, a := range t.Args {
+			out = addends(a, out, k)
+		}
+	default:
+		out = append(out, t)
+	}
+	return out
+}
+
 func Add(a, b *Term) *Term {
 	if a.S != IntS || b.S != IntS {
 		panic("Add: non-Int")
 	}
-	ba, ka := linView(a)
-	bb, kb := linView(b)
-	k := new(big.Int).Add(ka, kb)
-	switch {
-	case ba == nil && bb == nil:
+	k := new(big.Int)
+	ts := addends(a, nil, k)
+	ts = addends(b, ts, k)
+	// cancel x + (- x)
+	if len(ts) > 1 {
+		cnt := map[*Term]int{}
+		for _, t := range ts {
+			if t.Op == "neg" {
+				cnt[t.Args[0]]--
+			} else {
+				cnt[t]++
+			}
+		}
+		var out []*Term
+		done := map[*Term]bool{}
+		for _, t := range ts {
+			base := t
+			if t.Op == "neg" {
+				base = t.Args[0]
+			}
+			if done[base] {
+				continue
+			}
+			done[base] = true
+			c := cnt[base]
+			switch {
+			case c == 0:
+			case c > 0:
+				if c == 1 {
+					out = append(out, base)
+				} else {
+					out = append(out, mulLit(big.NewInt(int64(c)), base))
+				}
+			default:
+				if c == -1 {
+					out = append(out, P.intern(&Term{Op: "neg", Args: []*Term{base}, S: IntS}))
+				} else {
+					out = append(out, mulLit(big.NewInt(int64(c)), base))
+				}
+			}
+		}
+		ts = out
+	}
+	if len(ts) == 0 {
 		return IntBig(k)
-	case ba == nil:
-		return addK(bb, k)
-	case bb == nil:
-		return addK(ba, k)
 	}
-	if ba.id > bb.id {
-		ba, bb = bb, ba
+	sort.Slice(ts, func(i, j int) bool { return ts[i].id < ts[j].id })
+	var base *Term
+	if len(ts) == 1 {
+		base = ts[0]
+	} else {
+		base = P.intern(&Term{Op: "+", Args: ts, S: IntS})
 	}
-	s := P.intern(&Term{Op: "+", Args: []*Term{ba, bb}, S: IntS})
-	return addK(s, k)
+	return addK(base, k)
+}
+func mulLit(c *big.Int, x *Term) *Term {
+	return P.intern(&Term{Op: "*", Args: []*Term{IntBig(c), x}, S: IntS})
 }
 func addK(base *Term, k *big.Int) *Term {
 	if k.Sign() == 0 {
@@ -429,29 +537,18 @@ func Neg(a *Term) *Term {
 	if a.Op == "neg" {
 		return a.Args[0]
 	}
-	if a.Op == "+" && len(a.Args) == 2 {
-		return Add(Neg(a.Args[0]), Neg(a.Args[1]))
+	if a.Op == "+" {
+		r := IntLit(0)
+		for _, x := range a.Args {
+			r = Add(r, Neg(x))
+		}
+		return r
 	}
 	return P.intern(&Term{Op: "neg", Args: []*Term{a}, S: IntS})
 }
 func Sub(a, b *Term) *Term {
 	if a == b {
 		return IntLit(0)
-	}
-	// (x + k1) - (x + k2)
-	ba, ka := linView(a)
-	bb, kb := linView(b)
-	if ba == bb && ba != nil {
-		return IntBig(new(big.Int).Sub(ka, kb))
-	}
-	// (x+y+k) - x  → y+k
-	if ba != nil && ba.Op == "+" && len(ba.Args) == 2 && bb != nil {
-		if ba.Args[0] == bb {
-			return addK(ba.Args[1], new(big.Int).Sub(ka, kb))
-		}
-		if ba.Args[1] == bb {
-			return addK(ba.Args[0], new(big.Int).Sub(ka, kb))
-		}
 	}
 	return Add(a, Neg(b))
 }
@@ -469,8 +566,18 @@ func Mul(a, b *Term) *Term {
 		if a.V.Cmp(big.NewInt(1)) == 0 {
 			return b
 		}
-		if bb, kb := linView(b); bb != nil && kb.Sign() != 0 {
-			return Add(Mul(a, bb), IntBig(new(big.Int).Mul(a.V, kb)))
+		if b.Op == "+" {
+			r := IntLit(0)
+			for _, x := range b.Args {
+				r = Add(r, Mul(a, x))
+			}
+			return r
+		}
+		if b.Op == "neg" {
+			return Mul(IntBig(new(big.Int).Neg(a.V)), b.Args[0])
+		}
+		if b.Op == "*" && b.Args[0].Op == "int" {
+			return Mul(IntBig(new(big.Int).Mul(a.V, b.Args[0].V)), b.Args[1])
 		}
 	}
 	return P.intern(&Term{Op: "*", Args: []*Term{a, b}, S: IntS})
